@@ -557,6 +557,7 @@ _BINOPS = {
     ast.Sub: lambda a, b: a - b,
     ast.Mult: lambda a, b: a * b,
     ast.FloorDiv: lambda a, b: a // b,
+    ast.Div: lambda a, b: a / b,
     ast.Mod: lambda a, b: a % b,
     ast.Pow: lambda a, b: a ** b,
     ast.LShift: lambda a, b: a << b,
